@@ -1,6 +1,6 @@
 (* Properties/C11.v — Placeholder resolution: substitution, defaults, termination, true cycles only. *)
 From Coq Require Import List Arith Bool.
-From YT Require Import Model.Resolver Proofs.ResolverProofs Proofs.ResolverTermProofs.
+From YT Require Import Model.Resolver Proofs.ResolverProofs Proofs.ResolverTermProofs Proofs.ResolverSeenProofs Proofs.ResolverNestedProofs.
 Import ListNotations.
 
 (* Resolve(s) == s when s has no prefix; text outside placeholders is never altered. *)
@@ -66,9 +66,10 @@ Print Assumptions C11_self_reference_cycles.
    repetition, defaults, defaults taken from resolved text and resolved again, unknown keys,
    unterminated tails.  Measure: the number of prefix tokens; every body on the visited stack holds at
    least as many as the text being scanned, so no body is met twice.
-   PARTIAL: termination for tables whose values themselves contain placeholders (acyclic or cyclic,
-   possibly unbalanced, so that resolved text can spell new placeholders) is not proved; it is
-   searched for on generated tables by the correspondence (Go-side timeout per call) — see DESIGN.md C11. *)
+   PARTIAL: this theorem speaks of flat tables; tables whose values contain placeholders are covered by
+   C11_terminates_unnested_partial (no nesting, plain defaults) and C11_terminates_nested_partial (nesting, no
+   defaults) below; nested placeholders WITH defaults over a recursive table are searched, not proved (Go-side
+   timeout per call) — see DESIGN.md C11. *)
 Theorem C11_terminates_partial : forall tbl, flat_tbl tbl -> forall s,
   exists r, resolve_top tbl (S (cpre s)) s = ROk r.
 Proof. exact flat_terminates_top. Qed.
@@ -111,6 +112,60 @@ Proof.
   - eapply so_ph; [reflexivity|reflexivity|right; right; now left|reflexivity|]. apply so_none. reflexivity.
   - vm_compute. reflexivity.
 Qed.
+
+(* ... and for ANY table with placeholders NESTED to any depth — keys computed by placeholders, in the input and in the
+   values, recursively or cyclically — when the text holds no default separator: every body that can be met is a piece of
+   the input or of a value (U lists them, nested ones included; resolved text is only used as a key, and a key without a
+   separator is looked up as it is), so the same measure works: string or cycle report, never out of fuel; bound
+   |U| * (L+1) + |input| + 1.  What remains unproved is the combination of all three: nested placeholders AND defaults
+   (whose text is resolved again, so that bodies need not be pieces of the original texts) AND a recursive table. *)
+Theorem C11_terminates_nested_partial : forall tbl U L, nested_tbl tbl U L ->
+  forall s, nscan U s -> nosep s = true -> length s <= L ->
+  resolve_top tbl (S (length U * S L + length s)) s <> ROut.
+Proof. exact nested_terminates_top. Qed.
+Print Assumptions C11_terminates_nested_partial.
+
+(* non-vacuity, on a cyclic table with a computed key: a -> ${${s}}, s -> a; ${a} expands to ${${s}} = ${a}: reported *)
+Example C11_nested_ex :
+  let a := [TChr 1] in let s := [TChr 2] in
+  let va := [TPre; TPre; TChr 2; TSuf; TSuf] in
+  let tbl := tbl_of [(a, va); (s, a)] in
+  let U := [a; [TPre; TChr 2; TSuf]; s] in
+  let inp := [TChr 0; TPre; TChr 1; TSuf] in
+  nscan U inp /\ nscan U va /\ nscan U a /\ nosep inp = true /\
+  resolve_top tbl (S (length U * 6 + length inp)) inp = RCycle [TPre; TChr 2; TSuf] /\
+  (* with s -> c, c -> x the computed key c is found; with s -> c alone the placeholder stays as it was written *)
+  resolve_top (tbl_of [(a, va); (s, [TChr 3]); ([TChr 3], [TChr 9])]) (S (length U * 6 + length inp)) inp = ROk [TChr 0; TChr 9] /\
+  resolve_top (tbl_of [(a, va); (s, [TChr 3])]) (S (length U * 6 + length inp)) inp = ROk [TChr 0; TPre; TPre; TChr 2; TSuf; TSuf].
+Proof.
+  cbv zeta. split; [|split; [|split; [|split; [|split; [|split]]]]].
+  - eapply ns_ph; [reflexivity|reflexivity|now left| |]; apply ns_none; reflexivity.
+  - eapply ns_ph; [reflexivity|reflexivity|right; now left| |apply ns_none; reflexivity].
+    eapply ns_ph; [reflexivity|reflexivity|right; right; now left| |]; apply ns_none; reflexivity.
+  - apply ns_none. reflexivity.
+  - reflexivity.
+  - vm_compute. reflexivity.
+  - vm_compute. reflexivity.
+  - vm_compute. reflexivity.
+Qed.
+
+(* The stack of placeholders being expanded matters through the cycle check ONLY ("true cycles only"): under a stack with
+   more bodies on it an answer stays what it was or becomes a cycle report — never another string —, with the same fuel;
+   so whatever terminates under one stack terminates under every larger one, and a string obtained at top level is the
+   string obtained inside any expansion, unless a cycle is reported there.  For EVERY table (recursive, cyclic, nested). *)
+Theorem C11_stack_only_adds_cycles : forall tbl f seen seen' s r,
+  resolve tbl f seen s = r -> r <> ROut -> sub_seen seen seen' ->
+  resolve tbl f seen' s = r \/ exists b, resolve tbl f seen' s = RCycle b.
+Proof. exact seen_mono. Qed.
+Print Assumptions C11_stack_only_adds_cycles.
+Theorem C11_top_answer_under_any_stack : forall tbl f s r seen,
+  resolve tbl f [] s = ROk r -> resolve tbl f seen s = ROk r \/ exists b, resolve tbl f seen s = RCycle b.
+Proof. exact top_answer_under_any_stack. Qed.
+Print Assumptions C11_top_answer_under_any_stack.
+Theorem C11_terminates_under_larger_stack : forall tbl f seen seen' s,
+  resolve tbl f seen s <> ROut -> sub_seen seen seen' -> resolve tbl f seen' s <> ROut.
+Proof. exact terminates_under_larger_stack. Qed.
+Print Assumptions C11_terminates_under_larger_stack.
 
 (* the earlier, weaker form: pure-text values, inputs without separators, bound by length *)
 Theorem C11_terminates_text : forall tbl, chars_tbl tbl -> forall s, nosep s = true ->
